@@ -607,7 +607,10 @@ class Array(metaclass=MetaArray):
         if is_integer(value):
             ll = value
         else:
-            ll = len(value)
+            # number of items: len() is only the first axis of an N-d value
+            ll = int(
+                np.prod(get_shape_from_array(value, len(self._shape)))
+            )
         if len(self) == ll:
             self.__class__._to_buffer(self._buffer, self._offset, value)
         else:
